@@ -194,6 +194,9 @@ Record wdesc := mkWDesc {
   w_inject : list (string * guard);          (* seeded path: fields that get set_rng(default_rng(seed+idx)) before use *)
   w_calls : list string;                     (* transform fields called by getitem *)
   w_local : list lsrc;                       (* draws of the wrapper itself on the seeded path *)
+  w_local_u : list gsrc;                     (* C09: draws of the wrapper itself on the UNSEEDED path (seed=None):
+                                                GNumpy = the process-global NumPy RNG (GlobalRng), GFresh = OS entropy
+                                                (default_rng(None)) *)
   w_wi : list (string * guard)               (* C09: fields whose members get transform.worker_init_fn in _worker_init_fn *)
 }.
 
@@ -344,12 +347,17 @@ Fixpoint worker_init (tbl ctbl : table) (wt : wtable) (ds : dsdesc) (k : nat) (s
 
 Definition dsclosed (ds : dsdesc) : bool := forallb (fun cb : string * bool => snd cb) (ds_fwd ds) && ds_wrapper ds && ds_root ds.
 
+(* the draws of a wrapper's own per-item code on the unseeded path *)
+Definition own_draws (wt : wtable) (c : string) : list prov :=
+  match wlookup wt c with Some d => map Glob (w_local_u d) | None => [] end.
+
 (* every generator a sample or a batch produced from this stack may draw from
-   (unseeded wrappers: no per-item re-injection) *)
+   (unseeded wrappers: no per-item re-injection; the wrapper's own draws come first) *)
 Fixpoint stack_draws (tbl ctbl : table) (wt : wtable) (s : dstack) : list prov :=
   match s with
   | DRoot cs => flat_map (draws ctbl) cs
   | DWrap (WObj c kids) inner =>
+      own_draws wt c ++
       (match wlookup wt c with
        | Some d => called_draws tbl (w_calls d) kids
        | None => []
@@ -365,12 +373,27 @@ Fixpoint swf (tbl ctbl : table) (wt : wtable) (s : dstack) : bool :=
   end.
 
 (* static condition for C09: every called transform field is reached by _worker_init_fn
-   behind a guard that admits all non-quiet classes, or holds only quiet classes *)
+   behind a guard that admits all non-quiet classes, or holds only quiet classes,
+   and the wrapper's own unseeded draws never come from OS entropy *)
+Definition not_fresh (g : gsrc) : bool := negb (gsrc_eqb g GFresh).
+
 Definition wiclosed (tbl : table) (d : wdesc) : bool :=
-  forallb (wfield_ok tbl (w_fields d) (w_wi d)) (w_calls d).
+  forallb not_fresh (w_local_u d)
+  && forallb (wfield_ok tbl (w_fields d) (w_wi d)) (w_calls d).
 
 Definition wiopen_classes (tbl : table) (wt : wtable) : list string :=
   map w_name (filter (fun d => negb (wiclosed tbl d)) wt).
 
 Definition is_wrk_in (lo hi : nat) (p : prov) : bool :=
   match p with Wrk j => Nat.leb lo j && Nat.ltb j hi | _ => false end.
+
+(* a stream derived from the worker's seed: a generator seeded from the j-th draw the hook made from the worker's
+   global NumPy RNG (lo <= j < hi), or one of the worker's process-global generators themselves (the DataLoader seeds
+   numpy / torch / random of every worker process from base_seed + worker_id: torch.utils.data._utils.worker, trusted).
+   NOT worker-derived: an inherited copy (Ctor), a per-item generator (Inj), OS entropy (GFresh). *)
+Definition worker_derived (lo hi : nat) (p : prov) : bool :=
+  match p with
+  | Wrk j => Nat.leb lo j && Nat.ltb j hi
+  | Glob g => not_fresh g
+  | _ => false
+  end.
